@@ -289,6 +289,16 @@ def run_program(case):
     ck.check(sorted(res._covariant_indices) == list(range(nf, nf + ncov)), "diagram:cov-first" + tag, sorted(res._covariant_indices))
     ck.check(sorted(res._contravariant_indices) == list(range(nf + ncov, nf + ncov + ncon)), "diagram:contra-last" + tag, "")
     ck.check(res.free_indices == nf, "diagram:free" + tag, res.free_indices)
+    # a copy of the diagram denotes the same sum (diagram.copy(), copy.copy(diagram)), also when it is extended afterwards
+    import copy as _copy
+
+    for cname, mk in (("copy()", lambda: d.copy()), ("copy.copy", lambda: _copy.copy(d))):
+        r2, f = call("diagram:" + cname, lambda: mk().calculate())
+        if f:
+            ck.add(f)
+        else:
+            same = r2.array.shape == res.array.shape and np.array_equal(r2.array, res.array) and r2.tensor_shape == res.tensor_shape and sorted(r2._covariant_indices) == sorted(res._covariant_indices)
+            ck.check(same, f"diagram:{cname}:same-result" + tag, (r2.array.shape, res.array.shape, r2.tensor_shape, res.tensor_shape))
     # operands untouched
     for o, a, n in zip(objs, arrays, nodes):
         if "ent" in n and not n.get("dt"):
